@@ -3,6 +3,7 @@ package main
 // Runs one of the Go fuzz targets (fuzz_test.go) from the driver with an execution-count budget.
 
 import (
+	"bytes"
 	"fmt"
 	"os"
 	"os/exec"
@@ -49,6 +50,11 @@ func (d *D) runFuzz(target string, execs int64, key string) {
 		_ = os.Remove(p) // do not leave a regression seed behind in the tree
 		d.Violate(key, fmt.Sprintf("coverage-guided fuzzing (%s) found a failing input (kept at %s):\n%s\n%s", target, keep, trunc(string(input), 600), trunc(tailFile(logPath, 1500), 1500)),
 			map[string]any{"fuzz_target": target, "corpus_entry": string(input)})
+		return
+	}
+	if bytes.Contains(out, []byte("--- FAIL: "+target)) {
+		// a seed-corpus entry already fails (no new corpus file is written in that case)
+		d.Violate(key, fmt.Sprintf("fuzz target %s fails on its seed corpus:\n%s", target, trunc(tailFile(logPath, 1500), 1500)), map[string]any{"fuzz_target": target})
 		return
 	}
 	d.mu.Lock()
